@@ -92,6 +92,9 @@ def run(shard, rec, tier, seed):
         except Exception as ex:
             rec.violation("raises", "server_verification_hash(%d) raised %r" % (c, ex), {"challenge": c})
             continue
+        if type(got) is not int:
+            rec.violation("result-type", "server_verification_hash(%d) returned %r, a %s (it is written to the wire as an EO integer)" % (c, got, type(got).__name__), {"challenge": c})
+            continue
         if got != want:
             d = 11092004 - (c + 1)
             m = ((c + 1) % 11 + 1) * 119
